@@ -6,6 +6,8 @@
 #include <string>
 #include <vector>
 
+#include <dirent.h>
+#include <set>
 #include <unistd.h>
 
 namespace tmpdir {
@@ -32,6 +34,35 @@ class Scope {
     }
     ~Scope() {
         for (const auto& f : m_files) ::unlink(f.c_str());
+    }
+};
+
+// closes, when the scope is left, every file descriptor that was opened inside it and is still open. The file-based index maps of the
+// library keep the descriptor they were created with for the life of the process (nothing closes it); a harness process that runs
+// thousands of cases would keep every unlinked scratch file alive through them (measured: 15 GB of tmpfs per shard in the thorough tier).
+class FdScope {
+    std::set<int> m_before;
+    static std::set<int> open_fds() {
+        std::set<int> fds;
+        if (DIR* d = ::opendir("/proc/self/fd")) {
+            const int own = ::dirfd(d);
+            while (const dirent* e = ::readdir(d)) {
+                if (e->d_name[0] < '0' || e->d_name[0] > '9') continue;
+                const int fd = std::atoi(e->d_name);
+                if (fd != own) fds.insert(fd);
+            }
+            ::closedir(d);
+        }
+        return fds;
+    }
+
+  public:
+    FdScope() : m_before(open_fds()) {}
+    FdScope(const FdScope&) = delete;
+    FdScope& operator=(const FdScope&) = delete;
+    ~FdScope() {
+        for (int fd : open_fds())
+            if (!m_before.count(fd)) ::close(fd);
     }
 };
 
